@@ -44,6 +44,14 @@ build_harness() {
   return 0
 }
 
+build_harness_fork() {
+  cd "$ROOT/harness" || exit 1
+  cp /repo/Cargo.lock Cargo.lock 2>/dev/null
+  RUSTFLAGS="--cfg graphql_tools_rs_verif" CARGO_TARGET_DIR="$ROOT/harness/target-fork" cargo build --offline --no-default-features --features fork_parser > "$ROOT/work/harness_fork_build.log" 2>&1 || {
+    echo "HARNESS (fork parser) BUILD FAILED"; grep -E '^error' -A12 "$ROOT/work/harness_fork_build.log" | head -60; return 1; }
+  return 0
+}
+
 mkdir -p "$ROOT/work"
 exec 9>"$ROOT/work/.build.lock"
 flock 9
@@ -52,6 +60,7 @@ case "$what" in
   coq) build_coq || rc=1 ;;
   extract) build_extract || rc=1 ;;
   harness) build_harness || rc=1 ;;
+  harness-fork) build_harness_fork || rc=1 ;;
   all) build_coq || rc=1; build_extract || rc=1; build_harness || rc=1 ;;
 esac
 exit $rc
